@@ -2197,8 +2197,11 @@ parseHandshake:
     that are not errors.  These are checked here.
  */
     if (hsType != ssl->hsState &&
-        (hsType != SSL_HS_CLIENT_HELLO || ssl->hsState != SSL_HS_DONE))
+        (hsType != SSL_HS_CLIENT_HELLO || ssl->hsState != SSL_HS_DONE ||
+         !(ssl->flags & SSL_FLAGS_SERVER)))
     {
+        /* (A ClientHello on an established connection starts a rehandshake
+           on a server only: a client never takes the server role.) */
 
 /*
         A mismatch is possible in the client authentication case.
